@@ -531,7 +531,28 @@ def rule_G5(ctx):
                 continue
             K = cval(c["r"])
             if K is None:
-                ctx.note("%s: lookup loop bound %s is not a constant" % (f.name, key(c["r"])))
+                # a computed bound: what is the largest value it can have?
+                from ..bounds import call_summary
+                from ..lin import prove_le as _ple
+                be = strip_casts(resolve_local(f, c["r"]))
+                g = prog.resolve(f, be["fn"]) if is_call(be) and be.get("fn") else None
+                top = None
+                if g is not None:
+                    summ = call_summary(g, {}, 1, cache_key="g5")
+                    if summ and all(rl is not None for su, hy, rl in summ):
+                        for cand in range(N + 1):
+                            if all(_ple(rl, Lin(k=cand), hy) == PROVEN for su, hy, rl in summ):
+                                top = cand
+                                break
+                n += 1
+                if top is not None and top + (1 if c["op"] == "<=" else 0) < N:
+                    ctx.violation(f.name, "a lookup scans the whole table",
+                                  "the search for an open buffer stops at %s, which is at most %d: slot %d of "
+                                  "bufs[%d] is never looked at, so with a full table the buffer there is not "
+                                  "found and its slot is recycled" % (key(c["r"]), top, N - 1, N), f.loc(lp))
+                else:
+                    ctx.inconclusive(f.name, "a lookup scans the whole table",
+                                     "loop bound %s is not a constant" % key(c["r"]), f.loc(lp))
                 continue
             K = K + (1 if c["op"] == "<=" else 0)
             init = lp.get("init")
